@@ -279,7 +279,7 @@ PROPS = {
             "thorough": lambda s: gen.fam_data(s, 600, big=True) + gen.fam_life(s, 0) + gen.fam_cancel(s, 0) + gen.fam_gates(s, 0)},
     "C13": {"level": "model_checking", "model_replay": (40, 400), "mc": {"quick": ["MC_one", "MC_down_cancel"], "thorough": ["MC_one", "MC_down_cancel", "MC_err_cancel", "MC_two_stepped", "MCT_two_stepped_all"]},
             "quick": lambda s: gen.fam_data(s, 48) + gen.fam_misuse(s) + gen.fam_cancel(s, 4, policies=("eager", "slowcli"), fcs=("fc",)) + gen.fam_indep(s, 4, policies=("random",))
-                               + gen.fam_free(s, 48) + [x for x in gen.fam_hostile_srv(s) if "-off-" in x["name"] or "-legacy-" in x["name"]][:60] + gen.fam_neg(s)[:40],
+                               + gen.fam_free(s, 48) + [x for x in gen.fam_hostile_srv(s) if "-off-" in x["name"] or "-legacy-" in x["name"]][:60] + [x for x in gen.fam_hostile_srv(s) if "eager-before-settings" in x["name"]] + gen.fam_neg(s)[:40],
             "thorough": lambda s: gen.fam_data(s, 400, big=True) + gen.fam_cancel(s, 0) + gen.fam_indep(s, 0) + gen.fam_life(s, 12) + gen.fam_gates(s, 4)},
     "C06": {"level": "model_checking", "model_replay": (30, 300), "runner": run_c06, "hang": True,
             "also": ["C09_SrvStreamLevel", "C09_CliStreamLevel", "C09_BoundedBuffer", "C05_CreditConserved", "C05_CreditExact"],
